@@ -1698,6 +1698,8 @@ class Explorer:
                         sv0 = self.read_loc(st, src[1], src[2])
                         if sv0[0] == "arr" and not sv0[1]:
                             items = ()                      # `&[]`: nothing is appended
+                        elif src[1][0] == "L" and sv0[0] == "sym" and sv0[1][0] == "call":
+                            items = (("slice", sv0),)       # a temporary (`&len.to_be_bytes()`): named by its value, the local dies
                 base = cur[1] if cur[0] == "vec" else (("evs?", cur),)
                 self.write_loc(st, tgt[1], tgt[2], ("vec", base + items))
                 return ret(UNIT())
@@ -2025,6 +2027,44 @@ class Explorer:
             right = SYM(self.cap(("call", INDEX, (base, AGG("std::ops::RangeFrom", "RangeFrom", (n_,))))))
             st.effects.append(("call", p, tuple(args), (self.deref(st, base) if base[0] == "ref" else base, n_), ("tup", (left, right)), site, dict(st.cons)))
             return ret(("tup", (left, right)))
+        # ---- split_first_chunk::<N>: Some((&x[..N] as &[T; N], &x[N..])) exactly when N <= len
+        if p in ("std::slice::<impl [T]>::split_first_chunk", "std::slice::<impl [T]>::first_chunk") and len(args) == 1 and info.get("targs"):
+            nn = None
+            for ta in info["targs"]:
+                mm = re.match(r"^(\d+)(_?usize)?$", ta)
+                if mm:
+                    nn = int(mm.group(1))
+                elif fr.consts and ta in fr.consts:
+                    nn = fr.consts[ta]
+            if nn is not None:
+                base = args[0]
+                n_ = C(nn, "usize")
+                ln = SYM(self.cap(("len", base)))
+                INDEX = "std::slice::index::<impl std::ops::Index<I> for [T]>::index"
+                OPT = "std::option::Option"
+                cond = self.binop(st, "Lt", ln, n_)           # len < N: None
+                left = SYM(self.cap(("call", INDEX, (base, AGG("std::ops::RangeTo", "RangeTo", (n_,))))))
+                right = SYM(self.cap(("call", INDEX, (base, AGG("std::ops::RangeFrom", "RangeFrom", (n_,))))))
+                some = AGG(OPT, "Some", ((("tup", (left, right)) if p.endswith("split_first_chunk") else left),))
+                alts = []
+                for truth, val in ((False, some), (True, AGG(OPT, "None"))):
+                    s2 = st.clone()
+                    r = self.eval_bool(s2, cond)
+                    if isinstance(r, bool):
+                        if r != truth:
+                            continue
+                    elif not self.assume_bool(s2, r, truth):
+                        continue
+                    k2 = self.clone_stack(stack)
+                    self.write_place(s2, k2[-1], dest, val, site)
+                    if target is None:
+                        continue
+                    k2[-1].bb = target
+                    alts.append((s2, k2))
+                if not alts:
+                    self.finish_path(st, None, "diverge")
+                    return "stop"
+                return ("fork", alts)
         # ---- split_at_checked: Some((&x[..n], &x[n..])) exactly when n <= len
         if p == "std::slice::<impl [T]>::split_at_checked" and len(args) == 2:
             base, n_ = args[0], args[1]
